@@ -72,11 +72,26 @@ def part_symmetry(ctx, n):
     for it in range(n):
         tg = G.TermGen(rng, spins=rng.random() < 0.25, numbered=rng.random() < 0.2, general=rng.random() < 0.2)
         spec = tg.random_term(nobj=rng.randint(1, 3), with_denom=0.1, with_delta=0.15)
+        if rng.random() < 0.25:
+            # a power of one tensor object with pairwise different indices (even powers of an antisymmetric tensor are
+            # symmetric), alone or next to one small object
+            cls, name, nu, nl, bks, pat = rng.choice([c for c in G.CATALOG if c[0] in ("asym", "sym", "ampl") and c[2] + c[3] <= 4])
+            po, pv = tg.pool("o", 4), tg.pool("v", 4)
+            try:
+                slots = [(po if (pat[k] if pat else rng.choice("ov")) == "o" else pv).pop(rng.randrange(3)) for k in range(nu + nl)]
+            except (IndexError, ValueError):
+                continue
+            o = (cls, name, tuple(slots[:nu]), tuple(slots[nu:]), rng.choice(bks))
+            extra = [("nonsym", "e", (rng.choice(slots),), (), 0)] if rng.random() < 0.3 else []
+            spec = (spec[0], [o] * rng.randint(2, 4) + extra)
+            ctx.count("terms_with_a_power_of_a_tensor")
         idxs = sorted(set(G.term_indices(spec)))
         # Term.symmetry works on the index list WITH multiplicity and enumerates products of permutations per class
         cls_count = Counter((("o" if nm[0] in G.OCC else "v" if nm[0] in G.VIRT else "g"), sp)
                             for nm, sp in G.term_indices(spec))
-        if max(cls_count.values()) > 4 or sum(1 for v in cls_count.values() if v >= 3) > 2:
+        big = max(cls_count.values()) > 4 or sum(1 for v in cls_count.values() if v >= 3) > 2
+        is_power = any(spec[1].count(o) > 1 for o in spec[1])
+        if big and not is_power:
             continue   # Term.symmetry enumerates products of all permutations per class: keep it small
         try:
             sy = G.build_term(spec)
@@ -97,7 +112,7 @@ def part_symmetry(ctx, n):
         term = e.terms[0]
         tobjs = list(term.target) if tobjs is None else tobjs
         rep = {"kind": "Term.symmetry", "term": str(e), "target": [str(t) for t in tobjs], "spec": repr(spec)}
-        for mode in ("all", "contracted", "target"):
+        for mode in (() if big else ("all", "contracted", "target")):
             try:
                 sym = term.symmetry(only_contracted=(mode == "contracted"), only_target=(mode == "target"))
             except Exception as ex:
